@@ -12,6 +12,7 @@ import time
 import traceback
 
 VERIF = os.path.dirname(os.path.dirname(os.path.abspath(__file__)))
+OUT = os.environ.get('VERIF_OUT', VERIF)   # evidence/replays root (the mutant campaign redirects it)
 TIER = os.environ.get('VERIF_TIER', 'quick')
 try:
     SEED = int(os.environ.get('VERIF_SEED', '0'))
@@ -235,8 +236,8 @@ class Check:
             'known_findings_hit': [{'key': k[0], 'what': k[1], 'cases': n}
                                    for k, n in self.known_hit.items()],
         }
-        os.makedirs(os.path.join(VERIF, 'evidence'), exist_ok=True)
-        with open(os.path.join(VERIF, 'evidence', self.pid + '.json'), 'w') as f:
+        os.makedirs(os.path.join(OUT, 'evidence'), exist_ok=True)
+        with open(os.path.join(OUT, 'evidence', self.pid + '.json'), 'w') as f:
             json.dump(ev, f, indent=1, sort_keys=True)
         for (pat, text), n in self.known_hit.items():
             print('KNOWN-FINDING: property=%s %s [%s] (%d cases)' % (self.pid, text, pat, n))
@@ -253,7 +254,7 @@ class Check:
         if not self.viol:
             return 0
         # group by key, write replay artefacts for the first of each key
-        rdir = os.path.join(VERIF, 'replays', self.pid)
+        rdir = os.path.join(OUT, 'replays', self.pid)
         os.makedirs(rdir, exist_ok=True)
         bykey = collections.OrderedDict()
         for v in self.viol:
@@ -371,7 +372,7 @@ class Explorer:
                     for op, c, fails in succ:
                         transitions += 1
                         traces += 1
-                        if len(chk.samples) < 6 and depth == self.max_depth:
+                        if len(chk.samples) < 3 * depth:
                             chk.samples.append({'history': jsonable(hist + [op])})
                         if fails:
                             chk.record(self.name, {'history': hist + [op]}, [Fail(f) for f in fails])
